@@ -419,7 +419,7 @@ def gl7(prog):
 
 def run(prog):
     a, getfn = gl1(prog)
-    return a + gl2(prog, getfn) + gl3(prog) + gl4(prog) + gl5(prog) + gl6(prog) + gl7(prog) + gl8(prog) + gl9(prog) + gl10(prog)
+    return a + gl2(prog, getfn) + gl3(prog) + gl4(prog) + gl5(prog) + gl6(prog) + gl7(prog) + gl8(prog) + gl9(prog) + gl10(prog) + gl11(prog)
 
 
 def _resolve(t, d):
@@ -554,4 +554,39 @@ def gl10(prog):
                         % ([show(a)[:50] for a in cs.args[1:]], f.arg_name(valpos) or "res")))
     if n < 3:
         raise CheckerError("GL10: only %d cache insert accessors recognised (expected >= 3)" % n)
+    return out
+
+
+
+def gl11(prog):
+    """GL11  what a memoising function stores is what it returns: at every insertion into an operation cache (the BDD
+    ite cache, the SDD ite and apply caches, the top-down component cache) the stored value is, term for term, one of
+    the values the function returns.  Any transformation applied only to the stored copy (a negation for complemented
+    triples — the table does that itself —, a different intermediate) makes later hits replay another function."""
+    from .dt import leaves
+    out = []
+    sites = [("ite_helper", "insert", "RobddBuilder", 2), ("ite", "ite_cache_insert", "SddPtr", 2),
+             ("and", "app_cache_insert", "SddPtr", 2), ("topdown_h", "insert", "DecisionNNFBuilder", 2)]
+    for fname, ins, owner, vpos in sites:
+        fns = [f for f in prog.lib_fns if f.name == fname and owner in f.npath and "{closure" not in f.npath]
+        if len(fns) != 1:
+            raise CheckerError("GL11: %s of %s not found (%d)" % (fname, owner, len(fns)))
+        f = fns[0]
+        te = f.terms
+        rets = {repr(strip(a)) for a in leaves(te.ret)}
+        rets |= {repr(strip(x)) for a in leaves(te.ret) for x in [a]}
+        calls = [cs for cs in te.calls if cs.callee.name == ins and len(cs.args) > vpos and
+                 (ins != "insert" or "table" in show(cs.args[0]) or "HashMap" in cs.callee.key() or "IteTable" in cs.callee.key())]
+        if not calls:
+            raise CheckerError("GL11: no %s call in %s" % (ins, f.npath))
+        errs = []
+        for cs in calls:
+            v = strip(cs.args[vpos])
+            alts = {repr(strip(a)) for a in leaves(v)}
+            if repr(v) in rets or (alts and alts <= rets):
+                continue
+            errs.append("line %d: the cache is given %s, which is not a value the function returns (%s)"
+                        % (cs.line, show(v)[:70], sorted(show(strip(a))[:40] for a in leaves(te.ret))[:3]))
+        out.append(inst("GL", "%s:GL11:stored=returned" % f.npath, VIOLATION if errs else OK, f, calls[0].line,
+                        "; ".join(errs) if errs else "the stored value is the returned value"))
     return out
